@@ -404,6 +404,70 @@ def run_backend_direct(case):
     return {"nontrivial": s["loss"] > 0 and sum(vin) >= 2, "labels": ["lossy"] if s["loss"] else []}
 
 
+@st.composite
+def backend_sequence_case(draw):
+    """Two or three different circuits computed one after the other by the same Backend objects; the later ones are
+    built to have the same total number of modes (circuit + loss) and the same photon number as the first, split
+    differently between circuit modes and loss modes."""
+    first = draw(gen.flat_program(min_n=1, max_n=4, max_ops=5))
+    first, _ = gen.limit_loss(first, 3)
+    n1, total, _ = first["n"], gen.dims(first)[0] + gen.dims(first)[1], None
+    nph = draw(st.integers(1, 3))
+    seq = [{"prog": first, "input": draw(gen.fock_state(n1, nph))}]
+    for _ in range(draw(st.integers(1, 2))):
+        n2 = draw(st.integers(1, min(total, 5)))
+        p2 = draw(gen.flat_program(min_n=n2, max_n=n2, max_ops=4, lossy=False))
+        for _ in range(total - n2):
+            p2["ops"].insert(draw(st.integers(0, len(p2["ops"]))),
+                             ["loss", draw(st.integers(0, n2 - 1)), draw(st.sampled_from([0.3, 0.5, 0.8, 0.0, 1.0]))])
+        seq.append({"prog": p2, "input": draw(gen.fock_state(n2, nph))})
+    return {"sequence": seq, "via": draw(st.sampled_from(["backend", "sampler"]))}
+
+
+def run_backend_sequence(case):
+    import lightworks as lw
+    from lightworks import emulator
+    backends = {b: emulator.Backend(b) for b in ("permanent", "slos")}
+    sampler = {}
+    labels = {"via-" + case["via"]}
+    dims_seen = set()
+    for step, item in enumerate(case["sequence"]):
+        c = call("build", build_real, item["prog"])
+        n = c.n_modes
+        vin = list(item["input"])
+        U = c.U_full
+        ref = marginal_distribution(U, n, vin + [0] * (U.shape[0] - n))
+        tol = len(ref) * 1e-9 + 1e-9
+        if (U.shape[0], sum(vin)) in dims_seen:
+            labels.add("same-total-modes-and-photons-as-an-earlier-circuit")
+        dims_seen.add((U.shape[0], sum(vin)))
+        for name, be in backends.items():
+            if case["via"] == "backend":
+                d = call(f"full_probability_distribution[{name}] (circuit {step + 1} on this Backend object)",
+                         be.full_probability_distribution, c._build(), lw.State(vin))
+            else:
+                if name not in sampler:
+                    sampler[name] = emulator.Sampler(c, lw.State(vin), backend=name)
+                else:
+                    sampler[name].circuit = c
+                    sampler[name].input_state = lw.State(vin)
+                d = call(f"Sampler[{name}].probability_distribution (circuit {step + 1} assigned to this Sampler)",
+                         lambda s_=sampler[name]: dict(s_.probability_distribution))
+            got = {}
+            for s_, p in d.items():
+                k = tuple(s_)
+                if len(k) != n:
+                    raise Violation(f"{name}, circuit {step + 1} of the sequence: pattern {list(k)} has {len(k)} modes, the "
+                                    f"circuit has {n}", key="pattern-length")
+                got[k] = got.get(k, 0.0) + p
+            for k in set(got) | set(ref):
+                if not abs(got.get(k, 0.0) - ref.get(k, 0.0)) <= tol:
+                    raise Violation(f"{name}, circuit {step + 1} of the sequence computed by one {case['via']} object: "
+                                    f"P{k} = {got.get(k, 0.0):.10g}, exact {ref.get(k, 0.0):.10g}",
+                                    key="probability-mismatch-after-earlier-circuit")
+    return {"nontrivial": "same-total-modes-and-photons-as-an-earlier-circuit" in labels, "labels": sorted(labels)}
+
+
 def subs(tier):
     q = tier == "quick"
     return [
@@ -414,5 +478,6 @@ def subs(tier):
         Sub("edit-between-reads", run_reuse, strategy=reuse_case(), examples=50 if q else 600),
         Sub("many-photons-two-modes", run_two_mode, strategy=two_mode_case(big=not q), examples=25 if q else 400),
         Sub("many-loss-elements", run_many_loss, strategy=many_loss_case(), examples=5 if q else 100),
+        Sub("backend-object-reused", run_backend_sequence, strategy=backend_sequence_case(), examples=30 if q else 600),
         Sub("backend-direct", run_backend_direct, strategy=dist_case(big=False), examples=30 if q else 400),
     ]
